@@ -87,11 +87,15 @@ def constant_fold_binary_op_extended(
     if not isinstance(left, bytes) and not isinstance(right, bytes):
         return constant_fold_binary_op(op, left, right)
 
-    if op == "+" and isinstance(left, bytes) and isinstance(right, bytes):
-        return left + right
-    elif op == "*" and isinstance(left, bytes) and isinstance(right, int):
-        return left * right
-    elif op == "*" and isinstance(left, int) and isinstance(right, bytes):
-        return left * right
+    try:
+        if op == "+" and isinstance(left, bytes) and isinstance(right, bytes):
+            return left + right
+        elif op == "*" and isinstance(left, bytes) and isinstance(right, int):
+            return left * right
+        elif op == "*" and isinstance(left, int) and isinstance(right, bytes):
+            return left * right
+    except (OverflowError, MemoryError):
+        # E.g. b"" * 2**63: don't fold, the operation fails at run time.
+        return None
 
     return None
